@@ -825,7 +825,8 @@ class TCPUDSServerTransport(UDSServerTransport):
             try:
                 line = await reader.readline()
 
-                if not line:
+                if not line.endswith(b"\n"):
+                    # EOF, possibly in the middle of a line (incomplete request)
                     break
 
                 tcp_request = line.decode("ascii").strip()
